@@ -344,6 +344,7 @@ type env struct {
 	events *xrk.Recorder
 	rec    *revision.Reconciler
 	sigRec *signature.Reconciler
+	sigC   *sim.Client // the signature controller's API client (for fault injection)
 	val    *scriptedValidator
 	realV  bool
 }
@@ -397,7 +398,8 @@ func newEnv(typ *pkgType, seed uint64, sigGate bool) *env {
 	e.rec = revision.NewReconciler(mgr, ro...)
 	if sigGate {
 		e.val = &scriptedValidator{}
-		sc := &lockedClient{c: e.w.Client("signature")}
+		e.sigC = e.w.Client("signature")
+		sc := &lockedClient{c: e.sigC}
 		e.sigRec = signature.NewReconciler(sc,
 			signature.WithNewPackageRevisionFn(typ.nr),
 			signature.WithNamespace(xpNamespace),
